@@ -117,6 +117,11 @@ func isOnCurve(c elliptic.Curve, x, y *big.Int) bool {
 	if x == nil || y == nil {
 		return false
 	}
+	// only canonical affine coordinates: the curve implementations reduce or truncate
+	// out-of-range values before testing the curve equation
+	if p := c.Params().P; x.Sign() < 0 || y.Sign() < 0 || x.Cmp(p) >= 0 || y.Cmp(p) >= 0 {
+		return false
+	}
 	return c.IsOnCurve(x, y)
 }
 
